@@ -575,7 +575,7 @@ fn exec(line: &str, tys: &[Ty]) -> String {
                 let bytes = try_serialize_record(&forged, RecordKind::Chunk).ok()?;
                 let back: Chunk = try_deserialize_record(&record(bytes.to_vec())).ok()?;
                 let recomputed = back.address().xorname().0 == sha3_256(&value) && back.value.as_ref() == value.as_slice();
-                Some(if recomputed { "recomputed".into() } else { "kept".into() })
+                Some(format!("{} {}", if recomputed { "recomputed" } else { "kept" }, hex(&back.address().xorname().0)))
             }
             _ => None,
         }
@@ -675,7 +675,7 @@ fn oracle(line: &str, input: &str, res: &str, out: &mut Out, tys: &[Ty]) {
             }
         }
         "chunk" => {
-            if res != "recomputed" {
+            if !res.starts_with("recomputed ") {
                 out.oracle_fail("chunk-address-recomputed", input, &format!("decoded chunk address: {res}"));
             }
         }
